@@ -45,6 +45,7 @@ type Record struct {
 	WallUS     int64          `json:"wall_us"`
 	TapeLen    int            `json:"tape_len"`
 	Tape       []uint32       `json:"tape,omitempty"`
+	Minimised  bool           `json:"minimised,omitempty"`
 	MinTape    []uint32       `json:"min_tape,omitempty"`
 	MinTrace   []string       `json:"min_trace,omitempty"`
 	MinDetail  string         `json:"min_detail,omitempty"`
